@@ -5,15 +5,22 @@ From PV Require Import Lib.Bytes Spec.BmakeCond.
 From Coq Require Import ZifyBool ZifyN ZifyNat.
 Open Scope N_scope.
 
-Lemma alpha_facts c : is_alpha c = true ->
+(* a first byte that no number starts with: not white space, sign, digit or dot *)
+Definition head_ok (c : N) : bool :=
+  negb (is_cspace c || is_digit c || (c =? 43) || (c =? 45) || (c =? 46)).
+
+Lemma alpha_facts c : head_ok c = true ->
   is_cspace c = false /\ (c =? 45) = false /\ (c =? 43) = false /\ (c =? 48) = false /\
   is_digit c = false /\ (c =? 46) = false.
-Proof. unfold is_alpha, is_lower, is_upper, is_cspace, is_digit. lia. Qed.
+Proof. unfold head_ok, is_cspace, is_digit. lia. Qed.
+
+Lemma alpha_head_ok c : is_alpha c = true -> head_ok c = true.
+Proof. unfold head_ok, is_alpha, is_lower, is_upper, is_cspace, is_digit. lia. Qed.
 
 Lemma span_head_false (f : N -> bool) c r : f c = false -> span f (c :: r) = ([], c :: r).
 Proof. intros H. simpl. rewrite H. reflexivity. Qed.
 
-Lemma strtoul_alpha_dec c r : is_alpha c = true ->
+Lemma strtoul_alpha_dec c r : head_ok c = true ->
   strtoul (c :: r) false = (false, false, 0%Z, c :: r).
 Proof.
   intros H. destruct (alpha_facts c H) as (H1 & H2 & H3 & H4 & H5 & H6).
@@ -21,7 +28,7 @@ Proof.
   rewrite span_head_false by exact H5. reflexivity.
 Qed.
 
-Lemma strtoul_alpha_hex_nohex c r : is_alpha c = true -> is_hexdigit c = false ->
+Lemma strtoul_alpha_hex_nohex c r : head_ok c = true -> is_hexdigit c = false ->
   strtoul (c :: r) true = (false, false, 0%Z, c :: r).
 Proof.
   intros H Hh. destruct (alpha_facts c H) as (H1 & H2 & H3 & H4 & H5 & H6).
@@ -29,7 +36,7 @@ Proof.
   destruct r as [|x [|h r']]; rewrite ?H4; cbn [andb]; rewrite span_head_false by exact Hh; reflexivity.
 Qed.
 
-Lemma strtoul_alpha_hex_x c r : is_alpha c = true -> is_hexdigit c = true ->
+Lemma strtoul_alpha_hex_x c r : head_ok c = true -> is_hexdigit c = true ->
   exists m, strtoul (c :: 120 :: r) true = (true, false, m, 120 :: r).
 Proof.
   intros H Hh. destruct (alpha_facts c H) as (H1 & H2 & H3 & H4 & H5 & H6).
@@ -38,17 +45,17 @@ Proof.
     replace (is_hexdigit 120) with false by reflexivity; eexists; reflexivity.
 Qed.
 
-Lemma strtod_alpha c r : is_alpha c = true -> snd (strtod (c :: r)) = c :: r.
+Lemma strtod_alpha c r : head_ok c = true -> snd (strtod (c :: r)) = c :: r.
 Proof.
   intros H. destruct (alpha_facts c H) as (H1 & H2 & H3 & H4 & H5 & H6).
   unfold strtod. cbn [skip_cspace]. rewrite H1. unfold take_sign. rewrite H2, H3.
   destruct r as [|x r0]; rewrite ?H4; cbn [andb]; rewrite span_head_false by exact H5; rewrite H6; reflexivity.
 Qed.
 
-Lemma alpha_not_number s : s <> [] -> forallb is_alpha s = true -> try_parse_number s = None.
+(* only the first byte matters *)
+Lemma head_not_number c r : head_ok c = true -> try_parse_number (c :: r) = None.
 Proof.
-  destruct s as [|c r]; [congruence|]. intros _ Hall. simpl in Hall.
-  apply andb_true_iff in Hall as [Hc Hr].
+  intros Hc.
   destruct (alpha_facts c Hc) as (H1 & H2 & H3 & H4 & H5 & H6).
   unfold try_parse_number.
   set (hex := match c :: r with _ :: x :: _ => x =? 120 | _ => false end).
@@ -65,6 +72,12 @@ Proof.
       reflexivity.
   - rewrite (strtoul_alpha_dec c r Hc). rewrite H6.
     cbn [orb]. destruct ((c =? 101) || (c =? 69)); [exact Hstrtod|reflexivity].
+Qed.
+
+Lemma alpha_not_number s : s <> [] -> forallb is_alpha s = true -> try_parse_number s = None.
+Proof.
+  destruct s as [|c r]; [congruence|]. intros _ Hall. simpl in Hall.
+  apply andb_true_iff in Hall as [Hc _]. apply head_not_number. apply alpha_head_ok. exact Hc.
 Qed.
 
 Lemma lower_alpha_of_lower s l : lower s = l -> forallb is_lower l = true -> forallb is_alpha s = true.
